@@ -217,7 +217,7 @@ impl Check for C09 {
             }
         }
         ctx.nontrivial();
-        let (j, o) = judge(&text, b"line one\nline two\n", &JudgeOpts { run_unspecified: true, limits: crate::refmodel::interp::Limits { steps: if fam >= 4 { 400_000 } else { 20_000 }, depth: if fam >= 4 { 150 } else { 24 } } }, ctx);
+        let (j, o) = judge(&text, b"line one\nline two\n", &JudgeOpts { run_unspecified: true, limits: crate::refmodel::interp::Limits { steps: if fam >= 4 { 3_000_000 } else { 20_000 }, depth: if fam >= 4 { 150 } else { 24 } } }, ctx);
         match j {
             Judged::Agree => ctx.count("compared_with_reference"),
             Judged::Skipped => ctx.count("crash_freedom_only"),
